@@ -4,6 +4,7 @@ import (
 	"errors"
 	"flag"
 	"fmt"
+	"math"
 	"os"
 	"strconv"
 	"time"
@@ -101,7 +102,7 @@ func (v xFilesFactorValue) Set(s string) error {
 	if err != nil {
 		return err
 	}
-	if f < 0 || 1 < f {
+	if math.IsNaN(f) || f < 0 || 1 < f {
 		return errors.New("xFilesFactor must be between 0.0 and 1.0")
 	}
 	*v.f = float32(f)
